@@ -79,7 +79,14 @@ FirstBad(steps, k, name) == IF k > Len(steps) THEN 0
                             ELSE IF ~StateOK(name, steps[k].post) THEN k ELSE FirstBad(steps, k + 1, name)
 Bump(k) == TLCSet(k, TLCGet(k) + 1)
 Add(k, v) == TLCSet(k, TLCGet(k) + v)
-Rec == Recs[i]
+\* A stroke with an existing label outside that label's frame is not an edit of that node's mask (C07 domain
+\* note). The drivers never issue one; a session REPLAYED on another tree may contain one, and is cut there.
+OutOfDomain(prev, c) == c[1] = KPaint /\ c[4] # 0 /\ c[4] <= N /\ prev.time[c[4]] >= 0 /\ prev.time[c[4]] # c[2]
+RECURSIVE DomLen(_, _, _)
+DomLen(init, steps, k) == IF k > Len(steps) THEN Len(steps)
+                          ELSE IF OutOfDomain(IF k = 1 THEN init ELSE steps[k - 1].post, steps[k].c) THEN k - 1
+                          ELSE DomLen(init, steps, k + 1)
+Rec == LET r == Recs[i] IN [r EXCEPT !.steps = SubSeq(r.steps, 1, DomLen(r.init, r.steps, 1))]
 NUndoRedo(steps) == Cardinality({k \in 1..Len(steps) : steps[k].c[1] \in {KUndo, KRedo} /\ steps[k].ret})
 Report ==
     LET init == DecO(Rec.init)
